@@ -1,5 +1,5 @@
-"""C07 — memory safety and read-only treatment of application buffers (Reed-Solomon codecs, kernels, dispatch layer; LDPC decoder not reached)."""
-from checks import c10, c06, c13, c09
+"""C07 — memory safety and read-only treatment of application buffers (Reed-Solomon codecs, kernels, dispatch layer; LDPC-Staircase decoder: BOUNDED session contract)."""
+from checks import c10, c06, c13, c09, lbc
 
 INFO = {
     "level": "model_checking",
@@ -7,7 +7,7 @@ INFO = {
                    "application memory are re-run here: RS API layer (received symbols never written, pointers kept, tables of exactly n / k entries), "
                    "encoders (sources untouched, output slot only), dispatch layer (ESI range check before dispatch, rejected calls touch nothing), "
                    "symbol kernels (nothing read or written beyond `size`: of_add_to_symbol for every size and alignment, the others per size)",
-    "assumptions": ["the LDPC-Staircase IT/ML decoder's accesses are NOT covered", "bounds as in the carrying contracts (C10, C06, C13, C09)"],
+    "assumptions": ["the LDPC-Staircase IT/ML decoder's accesses: BOUNDED session contract on small codes (pointer/bounds checks on exact-size buffers, received symbols and the application table never written)", "bounds as in the carrying contracts (C10, C06, C13, C09)"],
     "trusted": [],
 }
 
@@ -34,4 +34,10 @@ def jobs(tier, seed):
             out.append(j)
     if tier == "quick":   # the LDPC/2D row family is large; keep a slice here (the whole family runs under C06)
         out = [j for j in out if not (j.name.startswith("build_repair.") and (".ldpc." in j.name or ".2d." in j.name)) or j.name.endswith(("row0", "row5", "rowf", "row3"))]
-    return out
+    ld = lbc.c04_jobs(tier, seed, prop="C07", prefix="c07it", group_prefix="lbc_frame_stream") + lbc.cb_jobs(tier, seed, prop="C07", prefix="c07cb", group_prefix="lbc_frame_callbacks") \
+        + lbc.c03_jobs(tier, seed, prop="C07", prefix="c07ml", group_prefix="lbc_frame_finish")
+    if tier == "quick":
+        ld = [j for i, j in enumerate(ld) if i % 4 == 0]
+    else:
+        ld = [j for i, j in enumerate(ld) if i % 3 == 2]
+    return out + ld
